@@ -90,6 +90,21 @@ CLAIMED = {
                      "of natively built typed values (containers of symbolic ints, enum members, nested dataclass instances, "
                      "Fraction/Decimal/dates/paths/patterns by symbolic index) including through a dataclass constructor.",
                 design_ref="DESIGN.md 5/C06", technique="symbolic execution (CrossHair+z3), convert against its own input"),
+    'C07': dict(text="For 33 types covering every composite converter, rejected symbolic values are run through the diagnostic pass and the "
+                     "tree is compared, on every path, with what the element types' own converters (built separately) report for the "
+                     "sub-values: children keys = positions rejected on their own, child = element's own tree, missing/extra exact, one "
+                     "union child per member in order, leaf.actual = offending value.",
+                design_ref="DESIGN.md 5/C07", technique="symbolic execution (CrossHair+z3), element converters as oracle"),
+    'C08': dict(text="Error trees are produced by real failing conversions whose shape (one or two of 14 fault sites x 4 wrong kinds) is chosen "
+                     "by the solver; rendering must not raise, be stable and leave the tree unchanged, and the text must contain, in nesting "
+                     "order, the tokens each injected fault requires (path components, expectation, value, key names, cause message).",
+                design_ref="DESIGN.md 5/C08", technique="symbolic execution (CrossHair+z3) over tree shapes, containment oracle"),
+    'C10': dict(text="Histories are symbolic: (i) use/drop sequences over 8 type factories under an id() allocator stub that may recycle the "
+                     "ids of objects that really died (the solver decides when), every memoised lookup compared with a freshly built "
+                     "converter; (ii) order of (type, handler form) calls and of generic subscriptions; (iii) KeyCache.__call__ re-emitted "
+                     "from its source as a generator and two calls interleaved by symbolic schedule bits, plus sequential LRU histories "
+                     "against a reference LRU.",
+                design_ref="DESIGN.md 5/C10", technique="symbolic execution (CrossHair+z3) over histories/schedules, fresh converter as oracle"),
 }
 
 NA = {
